@@ -326,6 +326,11 @@ func (f *Stub) newLink(ctx context.Context) *link {
 	w := f.w
 	l := &link{w: w, up: newGPipe(w.free), down: newGPipe(w.free), hdrCh: make(chan struct{}),
 		stripReqNegotiate: f.stripReq, stripRespNegotiate: f.stripResp}
+	// what a client interceptor / stub wrapper would do: add a header to the call's context
+	// (only the stream's own context carries it, not the caller's)
+	if f.w.cfg.Mode == "fwd" {
+		ctx = metadata.AppendToOutgoingContext(ctx, "x-stub", "1")
+	}
 	l.cctx, l.ccancel = context.WithCancel(ctx)
 	md, _ := metadata.FromOutgoingContext(ctx)
 	md = md.Copy()
